@@ -424,7 +424,20 @@ var loopNames = []string{"while", "dowhile", "for", "foreach"}
 func (g *gen) block(d, n int) []Stmt {
 	var out []Stmt
 	for i := 0; i < n; i++ {
-		out = append(out, g.stmt(d, i == n-1)...)
+		next := g.stmt(d, i == n-1)
+		// a prefix ++/-- statement directly after a do-while is a construct of its own
+		if len(out) > 0 && len(next) > 0 {
+			if l, ok := out[len(out)-1].(*Loop); ok && l.Kind == KDoWhile {
+				if id, ok := next[0].(*IncDec); ok && id.Prefix {
+					if g.ex("dowhile.then-prefix-incdec") {
+						id.Prefix = false
+					} else {
+						g.feat("dowhile.then-prefix-incdec")
+					}
+				}
+			}
+		}
+		out = append(out, next...)
 	}
 	return out
 }
